@@ -155,8 +155,28 @@ fn timestamp() -> BoxedStrategy<u64> {
         1 => Just(0u64),
         1 => Just(u64::MAX),
         1 => any::<u64>(),
+        // 64-bit / sign boundaries, also offset by a wall-clock-sized amount of milliseconds
+        // (timestamps are compared with and subtracted from the current time)
+        1 => boundary_u64(),
+        1 => (proptest::sample::select(vec![1u64 << 63, (1u64 << 63) - 1, 1u64 << 32, 1u64 << 53, 0u64]), 0u64..4_000_000_000_000, any::<bool>())
+            .prop_map(|(b, d, up)| if up { b.wrapping_add(d) } else { b.wrapping_sub(d) }),
     ]
     .boxed()
+}
+
+/// The order's own price field: the level's price (None) seven times out of eight, otherwise a
+/// value of its own (orders are accepted whatever price they carry; the level's price governs).
+fn own_price(profile: Profile) -> BoxedStrategy<Option<u64>> {
+    match profile {
+        Profile::Small => prop_oneof![
+            14 => Just(None),
+            1 => proptest::sample::select(vec![0u64, 1, 2, 99, 100, 101, 10_000, 10_001]).prop_map(Some),
+            1 => (0u64..10_002).prop_map(Some),
+        ]
+        .boxed(),
+        // (boundary quantities: keep price * quantity within 64 bits)
+        Profile::Boundary => prop_oneof![14 => Just(None), 1 => Just(Some(0u64)), 1 => Just(Some(1u64))].boxed(),
+    }
 }
 
 /// One order description. Quantities follow the profile; in the boundary profile the
@@ -202,10 +222,10 @@ pub fn order_spec(cfg: OrderGenCfg) -> BoxedStrategy<OrderSpec> {
         threshold,
         amount,
         prop_oneof![3 => Just(true), 1 => Just(false)],
-        (boundary_u64(), boundary_u64(), boundary_i64(), 0u8..4),
+        (boundary_u64(), boundary_u64(), boundary_i64(), 0u8..4, own_price(cfg.profile)),
     )
         .prop_map(
-            |(kind, display, hidden, buy, tif, ts, threshold, amount, auto, (trail, lastref, offset, peg))| {
+            |(kind, display, hidden, buy, tif, ts, threshold, amount, auto, (trail, lastref, offset, peg, own_price))| {
                 OrderSpec {
                     kind,
                     display,
@@ -220,6 +240,7 @@ pub fn order_spec(cfg: OrderGenCfg) -> BoxedStrategy<OrderSpec> {
                     lastref,
                     offset,
                     peg,
+                    own_price,
                 }
             },
         )
